@@ -6,6 +6,8 @@ PLVE = "torrentfile.utils.PieceLengthValueError"
 
 def register(reg):
     register_more(reg)
+    register_pow2(reg)
+    register_copypath(reg)
     C = reg.contract
 
     # ------------------------------------------------------------------ C12
@@ -84,3 +86,49 @@ def _memo_setup(p, env):
     from pyvc.values import VBox, PV, S
     f = p.engine.uf("memo_func_now", S, PV)
     p.ghost["opaque_callable"] = lambda path, args: VBox(f(args[0].t))
+
+
+def register_pow2(reg):
+    C = reg.contract
+    C("torrentfile.utils.next_power_2",
+      props=["C02", "C10"],
+      params={"value": "int"},
+      requires=["0 <= value"],
+      returns="int",
+      replay="pure",
+      ensures=[("C02", "is_power_of_two", "is_pow2(result)"),
+               ("C02", "not_below_value", "result >= value"),
+               ("C02", "is_the_next_one", "implies(value >= 1, result < 2 * value)"),
+               ("C02", "zero_gives_one", "implies(value == 0, result == 1)")],
+      loops={0: {"invariant": [("start_pow2", "is_pow2(start)"), ("start_bound", "start >= 1 and (start == 1 or start < 2 * value)")],
+                 "decreases": "value - start"}},
+      notes="x & (x-1) handled by lemma L1; the smallest power of two >= value (1 for 0)")
+
+
+def register_copypath(reg):
+    C = reg.contract
+    C("torrentfile.utils.copypath",
+      props=["C14", "C19", "C13"],
+      params={"source": "str", "dest": "str"},
+      ghost={"q": "str"},
+      requires=["source != dest", ("env", "not fs_isdir(dest)"),
+                # Path(dest).parts: every proper prefix of the component sequence names an ancestor directory, never dest itself
+                ("env", "first_part(dest) != dest")],
+      fs_modifies=["_path == dest and _kind == 'copy'", "_kind == 'mkdir'"],
+      fs_props=["C14", "C19"],
+      ensures=[
+          ("C14", "source_untouched", "fs_same(source)"),
+          ("C14", "full_length_destination_untouched",
+           "implies(fs_exists0(dest) and fs_exists0(source) and fs_size0(source) <= fs_size0(dest), fs_same(dest) and fs_same(q))"),
+          ("C14", "only_new_directories_and_dest_change",
+           "implies(q != dest, fs_same(q) or (not fs_exists0(q) and fs_isdir(q)))"),
+          (["C14", "C13"], "dest_is_a_byte_identical_copy_when_copied",
+           "fs_same(dest) or (fs_isfile(dest) and fs_data(dest) == fs_data0(source))"),
+      ],
+      loops={0: {"invariant": [("only_dirs_created", "implies(q != dest, fs_same(q) or (not fs_exists0(q) and fs_isdir(q)))"),
+                               ("source_untouched_so_far", "fs_same(source)"),
+                               ("dest_not_turned_into_a_directory", "not fs_isdir(dest)")],
+                 "assume_in_body": ["pathjoin(root, part) != dest"],
+                 "modifies": []}},
+      raises={"FileExistsError": {}, "FileNotFoundError": {}, "OSError": {}},
+      notes="os.mkdir only ever creates an absent directory (never alters an existing entry); shutil.copy writes dest only")
